@@ -86,31 +86,27 @@ fn stub_interval_matches_real() {
     kani::cover!(true, "interval 0 compared");
 }
 
-/// Contract of `core::time::Duration::mul_f64` as used for timer jitter (`interval * factor`):
-/// the real function panics for a negative / non-finite / overflowing product; otherwise the result
-/// is the product rounded to whole nanoseconds. The stub returns an arbitrary duration within one
-/// nanosecond of that product's monotone bounds: for 0 <= f <= k (k in {1,2,...}) the result is
-/// between 0 and k * d (+1 ns rounding).
+/// Contract of `core::time::Duration::mul_f64` as used for timer jitter and receipt timeouts
+/// (`interval * factor`): the real function panics for a negative / non-finite / overflowing product;
+/// otherwise the result is the product rounded to whole nanoseconds. The stub returns an arbitrary
+/// duration between `d * floor(f)` and `d * (floor(f) + 1)` (+-1 ns), which contains the real result
+/// because the product is monotone in f. `c12_announce_duration_real` compares the real floating-point
+/// code against the same bounds on concrete inputs.
 pub(crate) fn mul_f64_contract(d: core::time::Duration, f: f64) -> core::time::Duration {
     assert!(f >= 0.0 && f < 1.0e6, "Duration::mul_f64: factor negative, NaN or absurdly large");
-    let r_ns: u64 = kani::any();
     let d_ns = d.as_nanos();
     assert!(d_ns < (1u128 << 40), "harness precondition: timer base interval below 2^40 ns");
-    if f <= 1.0 {
-        kani::assume((r_ns as u128) <= d_ns + 1);
-    } else if f <= 2.0 {
-        kani::assume((r_ns as u128) >= d_ns.saturating_sub(1) && (r_ns as u128) <= 2 * d_ns + 1);
-    } else if f <= 512.0 {
-        kani::assume((r_ns as u128) >= 2 * d_ns.saturating_sub(1) && (r_ns as u128) <= 512 * d_ns + 1);
-    } else {
-        kani::assume((r_ns as u128) >= 512 * d_ns.saturating_sub(1));
-    }
+    let lo = f as u64; // truncation == floor for f >= 0
+    let r_ns: u64 = kani::any();
+    let lo_ns = d_ns * lo as u128;
+    // an integral factor gives an exact product
+    let hi_ns = if (lo as f64) == f { lo_ns } else { d_ns * (lo as u128 + 1) };
+    kani::assume(r_ns as u128 + 1 >= lo_ns && r_ns as u128 <= hi_ns + 1);
     if f == 0.0 {
         kani::assume(r_ns == 0);
     }
     core::time::Duration::from_nanos(r_ns)
 }
-
 
 /// nanoseconds of 2^n seconds for the log intervals the harnesses use
 fn interval_ns(n: i8) -> u64 {
@@ -118,18 +114,9 @@ fn interval_ns(n: i8) -> u64 {
     if n >= 0 { 1_000_000_000u64 << n } else { 1_000_000_000u64 >> (-n) }
 }
 
-/// Contract of `PortConfig::announce_duration` (IEEE 1588-2019 9.2.6.12): announceReceiptTimeout announce
-/// intervals, stretched by a random factor in [1, 2). The real function does this in f64
-/// (`duration.mul_f64((1 + Open01) * timeout)`); the stub returns an arbitrary duration in the closed range,
-/// `c12_announce_duration_real` compares the real function against the same range for concrete inputs.
-pub(crate) fn announce_duration_contract<A, R: rand::Rng>(cfg: &crate::config::PortConfig<A>, _rng: &mut R) -> core::time::Duration {
-    let base = interval_ns(cfg.announce_interval.as_log_2()) as u128 * cfg.announce_receipt_timeout as u128;
-    let d: u64 = kani::any();
-    kani::assume(d as u128 >= base && d as u128 <= 2 * base);
-    core::time::Duration::from_nanos(d)
-}
-
+/// IEEE 1588-2019 9.2.6.12: the announce receipt timeout is announceReceiptTimeout announce intervals,
+/// stretched by a random factor in [1, 2): timeout * interval <= d <= 2 * timeout * interval (+-1 ns rounding).
 pub(crate) fn announce_duration_in_range<A>(cfg: &crate::config::PortConfig<A>, d: core::time::Duration) -> bool {
     let base = interval_ns(cfg.announce_interval.as_log_2()) as u128 * cfg.announce_receipt_timeout as u128;
-    d.as_nanos() >= base && d.as_nanos() <= 2 * base
+    d.as_nanos() + 1 >= base && d.as_nanos() <= 2 * base + 1
 }
